@@ -993,7 +993,7 @@ class bcrypt_sha256(_wrapped_bcrypt):
         r=(?P<rounds>\d{1,2})
         [$](?P<salt>[^$]{22})
         (?:[$](?P<digest>[^$]{31}))?
-        $
+        \Z
         """)
 
     #: old version 1 hash format
@@ -1004,7 +1004,7 @@ class bcrypt_sha256(_wrapped_bcrypt):
         (?P<rounds>\d{1,2})
         [$](?P<salt>[^$]{22})
         (?:[$](?P<digest>[^$]{31}))?
-        $
+        \Z
         """)
 
     @classmethod
